@@ -167,10 +167,15 @@ func (e *Environment) SaveGlobals(to io.Writer, maxValueLen int) (int, error) {
 			f := v.(Function)
 			if f.Name != nil && f.Name.Literal() == k {
 				// Named function inspect is ready for definition, eg func y(a,b){a+b}.
+				def := f.Inspect()
+				if maxValueLen > 0 && len(def) > maxValueLen {
+					log.Warnf("Skipping %q as it's too long (%d > %d)", k, len(def), maxValueLen)
+					continue
+				}
 				if ferr := VerifFault("save:write"); ferr != nil {
 					return n, ferr
 				}
-				_, err := fmt.Fprintf(to, "%s\n", f.Inspect())
+				_, err := fmt.Fprintf(to, "%s\n", def)
 				if err != nil {
 					return n, err
 				}
